@@ -65,6 +65,7 @@ THEOREMS = [
     "Mpc.C03_ssa_lower_ex_for",
     "Mpc.C03_ssa_lower_ex_div",
     "Mpc.C03_ssa_lower_ex_call",
+    "Mpc.C03_ssa_lower_ex_return_call",
     "Mpc.C03_ssa_lower_ex_array",
     "Mpc.C03_ssa_lower_ex_struct",
     "Mpc.C03_ssa_lower_ex_nested",
@@ -288,7 +289,7 @@ def run(ctx):
         ctx.evaluations += c.get("tv_testvectors", 0)
         # tie of the Lean model of ssagen (Ssa.lower, Model/MpclLower.lean) to the REAL ssagen: harness/cmd/c03/lower.go,
         # lean/Driver/C03Lower.lean; per program and input: ssaEval(lower p) = ssaEval(real SSA) = source = circuit
-        nlow = 250 if quick else 3000
+        nlow = 250 if quick else 2000
         ops, out, meta = ctx.run_hx("lower", nlow, timeout=2400)
         ctx.absorb_meta(meta, prefix="")
         for d in ctx.correspond("lower-vs-real-ssagen", ops, out, canon=lambda s: s.split(" #")[0]):
@@ -330,7 +331,7 @@ def run(ctx):
                    "cast_sext", "cast_zext", "cast_trunc", "literal_wide", "literal_left", "bool_var", "decl_zero", "define",
                    "opassign", "incdec", "two_results",
                    # calls (inlined), arrays, structs, nested aggregates
-                   "call", "call_one_result", "call_decl", "multi_define", "multi_assign", "agg_argument", "helper",
+                   "call", "call_one_result", "call_decl", "multi_define", "multi_assign", "return_call_multi", "agg_argument", "helper",
                    "callee_early_return", "callee_calls", "callee_multi_result", "callee_named_results",
                    "callee_reuses_caller_names", "callee_agg_param", "callee_agg_result", "agg_param", "agg_result",
                    "array", "struct", "nested_agg", "agg_zero", "agg_copy", "agg_assigned_in_if", "index_const",
